@@ -74,6 +74,16 @@ def mk_probes(tier, only=None):
                 P.append(e2.ScalarProbe("cast/explicit/%s/%s" % (t1.cid, t2.cid), fn(), t2, [t1],
                                         "return (%s)a;" % t2.name, ref))
                 P.append(e2.ScalarProbe("cast/return/%s/%s" % (t1.cid, t2.cid), fn(), t2, [t1], "return a;", ref))
+    # ---- register representation: a narrow cast result used at a wider type
+    if want("cast"):
+        for t1 in INT9:
+            for t2 in INT9:
+                if t2.bits == 64:
+                    continue
+                for wide in (LONG, ULONG):
+                    ref = (lambda t1, t2, wide: lambda a: (conv(conv(a, t1, t2), t2, wide), TRUE))(t1, t2, wide)
+                    P.append(e2.ScalarProbe("cast/widen/%s/%s/%s" % (t1.cid, t2.cid, wide.cid), fn(), wide, [t1],
+                                            "return (%s)a;" % t2.name, ref))
     # ---- ?: with every pair of arm types
     if want("cond"):
         for t1 in INT9:
